@@ -2,7 +2,7 @@
 import itertools
 import sys
 
-from mc import core, lib
+from mc import core, hist, lib
 from scoda.sequences.sequence import Sequence
 
 ENGINE = "E1-sweep"
@@ -11,7 +11,7 @@ RULE = ("all multisets of 1-3 member sequences (members = every well-formed set 
         "permutations x {merged into an empty receiver, merged into the first member}; compared with the union model; "
         "non-trivial = two members share a (channel, pitch) and overlap or abut")
 ASSUMPTIONS = ["velocity of fused notes is not demanded", "members never carry two different signatures of one kind on one tick"]
-REQUIRED_FLAGS = ["overlap_fused", "nested", "abutting_kept_separate", "identical_notes", "empty_member",
+REQUIRED_FLAGS = ["after_history", "overlap_fused", "nested", "abutting_kept_separate", "identical_notes", "empty_member",
                   "signature_repeat_dropped", "member_restates_own_signature_after_foreign_change", "different_durations", "permutation_checked", "receiver_nonempty"]
 
 
@@ -56,6 +56,7 @@ def units(ctx):
         yield ("triple", i)
     for i in range(len(SIGOPTS)):
         yield ("sig", i)
+    yield from hist.hist_units()
 
 
 def _fam(ms, durs=None):
@@ -65,6 +66,12 @@ def _fam(ms, durs=None):
 
 
 def gen_cases(unit, ctx):
+    if unit[0] == "hist":
+        p, (c0, c1) = ctx["p"], ctx["ch"]
+        for h in hist.hist_of_unit(unit):
+            for other in ([], [[3, 9, p, c0, 70]], [[0, 400, 108, c0, 9], [2, 4, p + 1, c1, 5]]):
+                yield {"hist_member": {"seed": unit[1], "build": unit[2], "hist": h}, "other": other}
+        return
     small, two = members(ctx)
     allm = small + two
     kind, i = unit
@@ -155,7 +162,17 @@ def model(mems):
 
 def check_case(case, ctx):
     R = core.Res()
-    mems = case["members"]
+    live_spec = None
+    if "hist_member" in case:
+        # one member is a live object with a history; its content is read back through the public views
+        live_spec = case["hist_member"]
+        live = hist.live_case(live_spec, R, ctx["p"], *ctx["ch"], hp=ctx["p"] - 20)
+        if live is None:
+            return R
+        _, ln, le, ld = live
+        mems = [{"notes": ln, "events": le, "dur": ld, "live": True}, {"notes": case["other"], "events": [], "dur": None}]
+    else:
+        mems = case["members"]
     want_notes, want_ev, want_dur, facts = model(mems)
     R.flags.extend(sorted(facts))
     if any(not m["notes"] and not m["events"] for m in mems):
@@ -169,8 +186,9 @@ def check_case(case, ctx):
     for perm in sorted(set(itertools.permutations(range(len(mems))))):
         for mode in ("into_empty", "into_first"):
             # members are built alternately through the absolute and the relative representation
-            seqs = [(lib.seq_abs if (k + (mode == "into_first")) % 2 == 0 else lib.seq_rel)(
-                mems[i]["notes"], mems[i]["events"], mems[i]["dur"]) for k, i in enumerate(perm)]
+            seqs = [hist.live_case(live_spec, core.Res(), ctx["p"], *ctx["ch"], hp=ctx["p"] - 20)[0] if mems[i].get("live") else
+                    (lib.seq_abs if (k + (mode == "into_first")) % 2 == 0 else lib.seq_rel)(
+                        mems[i]["notes"], mems[i]["events"], mems[i]["dur"]) for k, i in enumerate(perm)]
             if mode == "into_empty":
                 recv, rest = Sequence(), seqs
             else:
